@@ -38,6 +38,7 @@
 #include <atomic>
 #include <condition_variable>
 #include <deque>
+#include <map>
 #include <memory>
 #include <mutex>
 #include <thread>
@@ -156,6 +157,9 @@ struct CyclePlan
   int tdDelayUs{500};
   int tdCallback{CbData};  // for ReleaseInCallback / StopInCallback: which callback
   bool tdQuiesce{false};   // ReleaseInCallback: wait for the actors first (true sole owner)
+  int extraStoppers{0};    // further outside threads calling stop() at (nearly) the same instant
+  int stopperSkewUs{0};    // ... each delayed by i * skew
+  bool stopInDrain{false}; // a close/observer/cleanup callback fired by the outside stop()'s drain calls stop() itself
   int guardedInCb{0};      // 0 none, 1 connectSync, 2 receiveSync, 3 setReadMode, 4 addListener: tried inside a callback
 };
 struct Plan
@@ -181,6 +185,8 @@ std::string describe(const Plan &p)
     s += pbt::Fmt() << " | cycle" << ci++ << ": sessions=" << cy.nAccepted << "acc+" << cy.nConnected << "conn writers=0x" << std::hex
                     << cy.writerMask << std::dec << " teardown=" << tkName(cy.tdKind) << "@" << cy.tdDelayUs << "us";
     if (cy.tdKind == ReleaseInCallback || cy.tdKind == StopInCallback) s += pbt::Fmt() << " cb=" << cy.tdCallback << (cy.tdQuiesce ? " quiesced" : "");
+    if (cy.extraStoppers) s += pbt::Fmt() << " +" << cy.extraStoppers << "stoppers@" << cy.stopperSkewUs << "us";
+    if (cy.stopInDrain) s += " stopInDrain";
     if (cy.guardedInCb) s += pbt::Fmt() << " guardedInCb=" << cy.guardedInCb;
     int ai = 0;
     for (auto &a : cy.actors)
@@ -244,6 +250,8 @@ struct Ctx
   std::vector<std::pair<SessionId, std::uint16_t>> accepts;
 
   std::atomic<std::uint64_t> cbOnIo{0}, cbOnApp{0}, closes{0};
+  std::mutex closeMu;
+  std::map<SessionId, int> closeCount; // global close notifications per id
   std::atomic<int> inflight[kAKMax];
   Ctx()
   {
@@ -319,24 +327,34 @@ void onCallback(Ctx *ctx, int kind, SessionId sid)
     {
       bool race = ctx->outsideStopBegun.load();
       int res = 2;
+      std::string exText;
       try
       {
         sp->stop();
       }
       catch (const std::logic_error &)
       {
-        res = 1;
+        res = 1; // the documented clean failure
+      }
+      catch (const std::exception &e)
+      {
+        res = 3;
+        exText = e.what();
       }
       catch (...)
       {
         res = 3;
+        exText = "(not a std::exception)";
       }
       race = race || ctx->outsideStopBegun.load();
       ctx->stopInCbResult.store(res);
-      if (res == 3 || (res == 2 && !race))
+      if (res == 3)
+        ctx->fail("C05/undocumented-exception-from-stop",
+                  "stop() called inside an I/O-thread callback (kind " + std::to_string(kind) + (race ? ", while an outside stop() was in progress" : "") +
+                    ") threw an exception other than the documented std::logic_error: " + exText);
+      else if (res == 2 && !race)
         ctx->fail("C05/stop-in-callback",
-                  res == 3 ? "stop() inside a callback threw something other than std::logic_error"
-                           : "stop() inside an I/O-thread callback returned normally while the engine was running (must throw logic_error)");
+                  "stop() inside an I/O-thread callback returned normally while the engine was running (must throw logic_error)");
     }
     ctx->stopInCbTried.store(true);
   }
@@ -452,6 +470,10 @@ void runPlan(const Plan &plan, pbt::Case &c)
       [ctx](SessionId sid, const TransportErrorInfo &)
       {
         ctx->closes++;
+        {
+          std::lock_guard<std::mutex> lk(ctx->closeMu);
+          ++ctx->closeCount[sid];
+        }
         onCallback(ctx, CbClose, sid);
       });
     // the sentinel lives inside a callback object, i.e. inside Impl: its destructor
@@ -463,6 +485,7 @@ void runPlan(const Plan &plan, pbt::Case &c)
   // stop()/start() the same remote ip:port talks to the restarted engine again (the peer key
   // of a UDP "session" is the remote address - state kept across the restart would be hit)
   std::vector<int> carriedUdp;
+  std::vector<SessionId> allSetupSids; // every session the setup of any cycle established
   std::uint64_t digest = plan.udp ? 11 : 5;
   bool anyNontrivial = false;
   bool destroyed = false;
@@ -842,6 +865,7 @@ void runPlan(const Plan &plan, pbt::Case &c)
     // ---- teardown actor ---------------------------------------------------------
     std::atomic<int> observedMask{0};
     std::atomic<int> borrowersParked{-1};
+    std::atomic<bool> concurrentStops{false};
     std::string tdNote;
     std::thread teardown = spawn(
       [&]
@@ -892,13 +916,53 @@ void runPlan(const Plan &plan, pbt::Case &c)
           }
           take.reset();
         };
+        // further outside threads that call stop() at (nearly) the same instant as the teardown
+        // actor stops / drops. Each co-owns the transport for its call. A second stop() may
+        // return at once or after the drain; it must return, and nothing may escape from it.
+        std::atomic<bool> stoppersGo{false};
+        auto launchStoppers = [&]() -> std::vector<std::thread>
+        {
+          std::vector<std::thread> xs;
+          for (int i = 0; i < cy.extraStoppers; ++i)
+            xs.push_back(spawn(
+              [&, i]
+              {
+                std::shared_ptr<Transport> sp2 = ctx->lock();
+                if (!sp2) return;
+                while (!stoppersGo.load()) std::this_thread::yield();
+                if (cy.stopperSkewUs > 0) std::this_thread::sleep_for(std::chrono::microseconds(cy.stopperSkewUs * (i + 1)));
+                try
+                {
+                  sp2->stop();
+                }
+                catch (const std::exception &e)
+                {
+                  ctx->fail("C05/undocumented-exception-from-stop", std::string("stop() called concurrently with another stop() threw: ") + e.what());
+                }
+              }));
+          return xs;
+        };
         auto stopOutside = [&]
         {
           std::shared_ptr<Transport> sp = ctx->lock();
           if (!sp) return;
+          std::vector<std::thread> xs = launchStoppers();
+          if (cy.stopInDrain) ctx->armedStopInCb.store(CbClose | CbObserver | CbCleanup);
           observeInflight();
           ctx->outsideStopBegun.store(true);
-          sp->stop();
+          stoppersGo.store(true);
+          try
+          {
+            sp->stop();
+          }
+          catch (const std::exception &e)
+          {
+            ctx->fail("C05/undocumented-exception-from-stop", std::string("stop() from an application thread threw: ") + e.what());
+          }
+          for (auto &x : xs) x.join();
+          ctx->armedStopInCb.store(0);
+          if (cy.extraStoppers) concurrentStops.store(true);
+          // every stop() call has returned, so the one that performed the shutdown has too
           ctx->stopped.store(true);
           // operations issued after stop() returned must fail (cleanly)
           SessionId sid = sessions.empty() ? 1 : sessions[0].sid;
@@ -937,7 +1001,14 @@ void runPlan(const Plan &plan, pbt::Case &c)
           }
           observeInflight();
           ctx->outsideStopBegun.store(true);
-          dropOutside();
+          {
+            // stop() from outside racing the drop of the owning reference
+            std::vector<std::thread> xs = launchStoppers();
+            stoppersGo.store(true);
+            dropOutside();
+            for (auto &x : xs) x.join();
+            if (cy.extraStoppers) concurrentStops.store(true);
+          }
           break;
         case StopInCallback:
         {
@@ -1005,6 +1076,9 @@ void runPlan(const Plan &plan, pbt::Case &c)
     ctx->armedGuarded.store(0);
 
     if (!tdNote.empty()) c.label("note: " + tdNote);
+    if (concurrentStops.load()) c.label(std::string("concurrent stop() calls (") + tkName(cy.tdKind) + ")");
+    if (cy.stopInDrain && ctx->stopInCbTried.load()) c.label("stop() tried inside a callback of an outside stop()'s drain");
+    for (auto &s : sessions) allSetupSids.push_back(s.sid);
     if (borrowersParked.load() > 0) c.label("destruction began with " + std::to_string(borrowersParked.load()) + " borrower(s) parked (plain-pointer callers)");
     c.label(std::string("teardown ") + tkName(cy.tdKind) + (ctx->releasedInCb.load() ? " (released in callback)" : ""));
     if (cy.tdKind == StopInCallback) c.label("stop-in-callback result " + std::to_string(ctx->stopInCbResult.load()));
@@ -1052,6 +1126,18 @@ void runPlan(const Plan &plan, pbt::Case &c)
     // give the detached thread the few instructions it needs to leave its lambda
     std::this_thread::sleep_for(std::chrono::microseconds(300));
   }
+  // the transport is gone (stop + destruction, or destruction alone): every session the
+  // application had seen must have received exactly one close notification
+  {
+    std::lock_guard<std::mutex> lk(ctx->closeMu);
+    for (auto sid : allSetupSids)
+    {
+      int n = ctx->closeCount.count(sid) ? ctx->closeCount[sid] : 0;
+      if (n != 1)
+        ctx->fail(n == 0 ? "C05/session-without-close" : "C05/session-closed-twice",
+                  "session " + std::to_string(sid) + " received " + std::to_string(n) + " close notifications by the time the transport was destroyed");
+    }
+  }
   c.label("cycles=" + std::to_string(plan.cycles.size()));
   c.label(pbt::Fmt() << "io callbacks " << (ctx->cbOnIo.load() == 0 ? "0" : ctx->cbOnIo.load() < 10 ? "1-9" : ctx->cbOnIo.load() < 100 ? "10-99" : ">=100"));
   if (ctx->cbOnApp.load()) c.label("callbacks on application threads (flush/sendAsync) seen");
@@ -1087,6 +1173,12 @@ Plan genPlan(pbt::Src &src, bool udp)
     cy.tdCallback = src.oneOf<int>({CbData, CbClose, CbObserver, CbCleanup, CbData | CbClose});
     cy.tdQuiesce = src.coin(1, 2);
     cy.guardedInCb = src.coin(1, 4) ? static_cast<int>(src.range(1, 4)) : 0;
+    if (cy.tdKind != ReleaseInCallback && src.coin(1, 3))
+    {
+      cy.extraStoppers = static_cast<int>(src.range(1, 2));
+      cy.stopperSkewUs = src.oneOf<int>({0, 0, 20, 150});
+    }
+    if ((cy.tdKind == StopOutside || cy.tdKind == StopInCallback) && src.coin(1, 3)) cy.stopInDrain = true;
     cy.nAccepted = static_cast<int>(src.range(0, 2));
     cy.nConnected = static_cast<int>(src.range(cy.nAccepted == 0 ? 1 : 0, 2));
     cy.writerMask = static_cast<int>(src.range(0, 15));
@@ -1206,6 +1298,84 @@ PBT_REGRESSION(restart_same_udp_peers)
     cy.actors = {a};
     p.cycles.push_back(cy);
   }
+  runPlan(p, c);
+}
+// two (three) application threads call stop() at the same instant
+PBT_REGRESSION(concurrent_stop_tcp)
+{
+  Plan p;
+  p.udp = false;
+  for (int i = 0; i < 2; ++i)
+  {
+    CyclePlan cy;
+    cy.nAccepted = 2;
+    cy.nConnected = 1;
+    cy.writerMask = 1;
+    cy.tdKind = StopOutside;
+    cy.tdDelayUs = 1500;
+    cy.extraStoppers = i + 1;
+    cy.stopperSkewUs = i == 0 ? 0 : 20;
+    ActorPlan a;
+    a.ops = {{StatsOp, 0, 0, 100}, {SendOp, 0, 1, 100}};
+    cy.actors = {a};
+    p.cycles.push_back(cy);
+  }
+  runPlan(p, c);
+}
+PBT_REGRESSION(concurrent_stop_udp)
+{
+  Plan p;
+  p.udp = true;
+  for (int i = 0; i < 2; ++i)
+  {
+    CyclePlan cy;
+    cy.nAccepted = 2;
+    cy.nConnected = 1;
+    cy.writerMask = 1;
+    cy.tdKind = StopOutside;
+    cy.tdDelayUs = 1500;
+    cy.extraStoppers = i + 1;
+    ActorPlan a;
+    a.ops = {{StatsOp, 0, 0, 100}, {SendOp, 0, 1, 100}};
+    cy.actors = {a};
+    p.cycles.push_back(cy);
+  }
+  runPlan(p, c);
+}
+// stop() inside onClose while that callback is fired by an outside stop()'s drain: _running is already
+// false, so the documented logic_error guard does not apply - the nested call must simply return
+PBT_REGRESSION(stop_in_onclose_during_outside_stop_tcp)
+{
+  Plan p;
+  p.udp = false;
+  CyclePlan cy;
+  cy.nAccepted = 2;
+  cy.nConnected = 1;
+  cy.writerMask = 0;
+  cy.tdKind = StopOutside;
+  cy.tdDelayUs = 1000;
+  cy.stopInDrain = true;
+  ActorPlan a;
+  a.ops = {{StatsOp, 0, 0, 100}};
+  cy.actors = {a};
+  p.cycles = {cy, cy};
+  runPlan(p, c);
+}
+PBT_REGRESSION(stop_in_onclose_during_outside_stop_udp)
+{
+  Plan p;
+  p.udp = true;
+  CyclePlan cy;
+  cy.nAccepted = 2;
+  cy.nConnected = 1;
+  cy.writerMask = 0;
+  cy.tdKind = StopOutside;
+  cy.tdDelayUs = 1000;
+  cy.stopInDrain = true;
+  ActorPlan a;
+  a.ops = {{StatsOp, 0, 0, 100}};
+  cy.actors = {a};
+  p.cycles = {cy};
   runPlan(p, c);
 }
 // stop() from outside racing calls that consult the I/O-thread guard (connectSync/receiveSync/setReadMode)
